@@ -19,9 +19,11 @@ Mirrors `/repo/pygam/utils.py: combine` and `/repo/pygam/pygam.py: GAM.gridsearc
 * `loop` — the candidate loop as a fold: `ValueError` candidates are skipped, the others are
   appended to `models`/`scores`, the best is tracked with a strict `<` starting from
   `(self, self.statistics_[objective])` for a fitted model and from `(None, inf)` otherwise;
+* `dataCheck` — the one data check that depends on the state of the model: a *fitted* model rejects an
+  `X` whose number of columns is not `statistics_['m_features']`;
 * `finish` / `gridsearch` — "No models were fitted" ⇒ `self` is returned unchanged; `keep_best` copies
-  the best model's parameters into `self` (`None.get_params` ⇒ `AttributeError` when no score was
-  `< inf`); `return_scores` selects what is returned.
+  the best model's parameters into `self` when there is a best model (`best_model is not None`; when
+  no score was `< inf` `self` is left alone); `return_scores` selects what is returned.
 
 Fitting itself is *not* modelled here: the outcome of fitting candidate number `i` is a parameter
 `fit i : Option (M × α)` (`none` = the candidate raised `ValueError`), `M` being whatever a model
@@ -77,7 +79,7 @@ inductive GridSpec (α : Type) where
   | seq (nd2 : Bool) (entries : List (GVal α))
   deriving Repr
 
-/-- the exceptions of `gridsearch` after data validation; all but `noBest` are `ValueError` -/
+/-- the exceptions of `gridsearch`; all are `ValueError` -/
 inductive SearchErr where
   | badObjective      -- objective not in ['auto','GCV','UBRE','AIC','AICc']
   | gcvKnownScale     -- 'GCV should be used for models with unknown scale'
@@ -85,12 +87,16 @@ inductive SearchErr where
   | unknownParam      -- 'unknown parameter: …'
   | gridTooShort      -- not (isiterable(grid) and len(grid) > 1)
   | gridColumns       -- '… grid should have … columns'
-  | noBest            -- keep_best with best_model = None: AttributeError
+  | badData           -- check_X(X, n_feats=statistics_['m_features']) on a fitted model
   deriving Repr, DecidableEq
 
 def SearchErr.pyClass : SearchErr → String
-  | .noBest => "AttributeError"
   | _ => "ValueError"
+
+/-- `check_X(X, n_feats=self.statistics_['m_features'] if self._is_fitted else None)`: only a fitted model
+knows how many columns `X` must have -/
+def dataCheck (fitted : Bool) (mFeatures nCols : Nat) : Except SearchErr Unit :=
+  if fitted && nCols != mFeatures then .error .badData else .ok ()
 
 /-- the per-keyword block of `gridsearch` ("prepare grid") -/
 def normaliseGrid (targetLen : Nat) : GridSpec α → Except SearchErr (List (GVal α))
@@ -225,7 +231,7 @@ def finish (keepBest returnScores : Bool) (selfM : M) (fitM : Nat → Option M) 
     let ret : Returned α := if returnScores then .scores st.models else .self
     if keepBest then
       match st.best with
-      | none => .error .noBest
+      | none => .ok { selfAfter := selfM, best := none, nModels := st.models.length, returned := ret }
       | some r => .ok { selfAfter := content selfM fitM r, best := some r, nModels := st.models.length, returned := ret }
     else
       .ok { selfAfter := selfM, best := st.best, nModels := st.models.length, returned := ret }
